@@ -1061,6 +1061,8 @@ class NPFacade:
     float64 = _np.float64
     ndarray = _np.ndarray
     random = _np.random
+    integer = _np.integer
+    floating = _np.floating
 
     def __init__(self):
         self.linalg = _Linalg()
